@@ -1136,7 +1136,10 @@ class Interp:
             cls_of_self = self.class_of(st, selfv)
             found = self.src.find_method(cls_of_self, f.attr, after=owner)
             if found is None:
-                fv = FuncV("builtin", name="object." + f.attr, self=selfv)
+                base = "object"
+                if isinstance(selfv, Ref) and st.heap[selfv.oid].kind in ("list", "dict"):
+                    base = st.heap[selfv.oid].kind
+                fv = FuncV("builtin", name=base + "." + f.attr, self=selfv)
             else:
                 fv = self.bound_method(selfv, found)
             return self._call_with_args(fv, e, st, ctx)
